@@ -44,6 +44,7 @@ type Stim struct {
 	OnT  bool   `json:"ont,omitempty"`
 	Ord  int    `json:"ord,omitempty"`  // order in which the options are passed to Subscribe: 0 = filter, timeout, OnFiltered, OnTimeout; otherwise the seed of a permutation
 	Slow int    `json:"slow,omitempty"` // the filter takes this many milliseconds
+	FCl  bool   `json:"fcl,omitempty"`  // the filter predicate itself closes its own subscriber when it rejects a message
 	CbF  int    `json:"cbf,omitempty"`  // what OnFiltered does besides being recorded: 0 nothing, 1 closes its own subscriber
 	CbT  int    `json:"cbt,omitempty"`  // what OnTimeout does: 0 nothing, 1 closes its own subscriber, 2 closes the publication
 	M    int    `json:"m,omitempty"`
@@ -343,16 +344,6 @@ func (r *runner) doStim(st Stim) (stimResult, bool) {
 			sid := len(r.subs)
 			cfg := st
 			byKind := map[string]publisher.SubscriberOption[int]{}
-			if st.FK != 0 {
-				byKind["F"] = publisher.WithFilter(func(m int) bool {
-					if cfg.Slow > 0 {
-						time.Sleep(time.Duration(cfg.Slow) * time.Millisecond)
-					}
-					// stamped when the filter returns: the delivery of this pair cannot start earlier
-					r.log(evFilter, sid, m)
-					return accepts(cfg, m)
-				})
-			}
 			byKind["T"] = publisher.WithTimeout[int](time.Duration(tmoTicks[st.Tmo]) * tickDur)
 			h := &subH{cfg: st}
 			// a callback may close its own subscriber or the whole publication (from inside the callback)
@@ -374,6 +365,20 @@ func (r *runner) doStim(st Stim) (stimResult, bool) {
 					}
 				}
 				r.logAux(evCloseEnd, sid, m, kind)
+			}
+			if st.FK != 0 {
+				byKind["F"] = publisher.WithFilter(func(m int) bool {
+					if cfg.Slow > 0 {
+						time.Sleep(time.Duration(cfg.Slow) * time.Millisecond)
+					}
+					ok := accepts(cfg, m)
+					if !ok && cfg.FCl {
+						act(1, m) // re-entrant: the predicate unsubscribes its own subscriber
+					}
+					// stamped when the filter returns: the delivery of this pair cannot start earlier
+					r.log(evFilter, sid, m)
+					return ok
+				})
 			}
 			if st.OnF {
 				byKind["OF"] = publisher.OnFiltered(func(m int) { r.log(evOnFiltered, sid, m); act(cfg.CbF, m) })
